@@ -4,7 +4,7 @@ Design level : LookupIdx.tla: TLC checks the reference operators Lookup!IndexInt
                decreasing grid of the small scope (totality of integer indexing, nearest set minimal / non-empty / at most a
                tie, mirror symmetry between forward and backward grids).
 Conformance  : recorded grids are produced on the real OdeSystem (uniform, non-uniform via a dt-assigning callback, adaptive,
-               forward, backward, after continuation; dense on/off); every integer index in [-len-2, len+2], iteration, len,
+               forward, backward, against the configured span, after continuation; dense on/off); every integer index in [-len-2, len+2], iteration, len,
                every query time on the refined grid and outside the range, and the spanning time slice are executed;
                GetItemJudge.tla decides each result against the reference operators (distances are exact rationals, ranked).
 """
@@ -21,7 +21,7 @@ def scenarios(tier, seed):
     for m in meths:
         for (a, b) in ((0.0, 1.0), (1.0, 0.0), (-2.0, -1.0), (-1.0, -2.0), (-0.5, 0.5), (0.5, -0.5)):
             span = b - a
-            for kind in range(4):
+            for kind in range(5):
                 for dense in (False, True):
                     if not thorough and (len(scs) + seed) % 2 and kind in (1, 2):
                         pass
@@ -34,9 +34,11 @@ def scenarios(tier, seed):
                         sc["ops"] = [{"op": "integrate", "cbs": [{"kind": "setdt", "vals": [abs(span) / 8.0, abs(span) / 16.0, abs(span) / 4.0, abs(span) / 32.0]}] + probe}]
                     elif kind == 2:       # continuation
                         sc["ops"] = [{"op": "integrate", "t": a + span * 0.375}, {"op": "query"}, {"op": "integrate"}]
-                    else:                 # a single step
+                    elif kind == 3:       # a single step
                         sc["dt"] = abs(span)
                         sc["ops"] = [{"op": "integrate"}]
+                    else:                 # the run goes AGAINST the configured span: the grid's direction is the run's, not (t0, tf)'s
+                        sc["ops"] = [{"op": "integrate", "t": a - span * 0.75, "cbs": probe}]
                     scs.append(sc)
     return gen.number(scs, "C19_")
 
